@@ -3821,7 +3821,8 @@ impl Interpreter {
 
         // Try second method
         let second_key = PropertyKey::String(self.intern(second_method));
-        if let Some(JsValue::Object(method)) = obj.borrow().get_property(&second_key)
+        let second_prop = obj.borrow().get_property(&second_key);
+        if let Some(JsValue::Object(method)) = second_prop
             && matches!(method.borrow().exotic, ExoticObject::Function(_))
         {
             let result = self.call_function(JsValue::Object(method), value.clone(), &[])?;
